@@ -889,3 +889,70 @@ mod process_inbound_events_tests;
 #[cfg(test)]
 #[path = "raft_test/raft_comprehensive_tests.rs"]
 mod raft_comprehensive_tests;
+
+/// Verification hooks (compiled only with `--cfg d_engine_verif`): drive the body of the
+/// event loop in `run` one step at a time. Each function calls exactly the private step
+/// the loop itself calls; nothing here is reachable in a normal build.
+#[cfg(d_engine_verif)]
+impl<T> Raft<T>
+where
+    T: TypeConfig,
+{
+    /// Queue `events` as if received on `event_rx`, then run `process_inbound_events`
+    /// (merge of consecutive AppendEntries + role handling).
+    pub async fn verif_process_inbound(
+        &mut self,
+        events: Vec<InboundEvent>,
+    ) -> Result<()> {
+        self.buffered_inbound_event.extend(events);
+        self.process_inbound_events().await
+    }
+
+    /// Run only the merge step on `events` and hand the resulting queue back.
+    pub fn verif_merge(
+        &mut self,
+        events: Vec<InboundEvent>,
+    ) -> Vec<InboundEvent> {
+        self.buffered_inbound_event.extend(events);
+        if matches!(
+            self.buffered_inbound_event.front(),
+            Some(InboundEvent::AppendEntries(..))
+        ) {
+            self.merge_append_entries();
+        }
+        self.buffered_inbound_event.drain(..).collect()
+    }
+
+    /// Drain what is pending on `internal_event_rx` and process it (P2 arm + post-select step).
+    pub async fn verif_process_internal(&mut self) -> Result<()> {
+        while let Ok(ev) = self.internal_event_rx.try_recv() {
+            self.buffered_internal_event.push_back(ev);
+        }
+        self.process_internal_events().await
+    }
+
+    /// The P1 arm: one role tick.
+    pub async fn verif_tick(&mut self) -> Result<()> {
+        let internal_event_tx = &self.internal_event_tx;
+        let event_tx = &self.event_tx;
+        self.role.tick(internal_event_tx, event_tx, &self.ctx).await
+    }
+
+    /// The P3 arm for one command followed by the post-select flush.
+    pub async fn verif_client_cmd(
+        &mut self,
+        cmd: super::ClientCmd,
+    ) -> Result<()> {
+        self.role.push_client_cmd(cmd, &self.ctx);
+        self.process_client_cmds().await
+    }
+
+    /// Inbound events a role pushed to itself through `event_tx` (e.g. replayed requests).
+    pub fn verif_take_self_inbound(&mut self) -> Vec<InboundEvent> {
+        let mut v = Vec::new();
+        while let Ok(ev) = self.event_rx.try_recv() {
+            v.push(ev);
+        }
+        v
+    }
+}
